@@ -167,7 +167,8 @@ class SignalBuffer:
     def _invalidate(self, i):
         # This is only called by invalidate or invalidate_samples, which are
         # already wrapped inside a lock block.
-        if i <= 0:
+        if i <= self._ilb:
+            # Nothing at or after the oldest valid sample survives.
             self._buffer[:] = self._fill_value
             self._ilb = self._buffer_samples
         else:
